@@ -85,6 +85,18 @@ def worker_init() -> None:
     # the deterministic walk is recursive; keep the interpreter's own limit at
     # its default so that what a user would see is what is judged
     sys.setrecursionlimit(1000)
+    # "never ... unbounded memory growth": the step clock bounds the work, and with it what
+    # ordinary code can allocate; a cap on the address space catches the rest (one statement
+    # allocating gigabytes) as a MemoryError inside the evaluation, which is a verdict
+    try:
+        import resource
+
+        soft, hard = resource.getrlimit(resource.RLIMIT_AS)
+        cap = 6 << 30
+        if soft == resource.RLIM_INFINITY or soft > cap:
+            resource.setrlimit(resource.RLIMIT_AS, (cap, hard))
+    except (ImportError, ValueError, OSError):
+        pass
 
 
 def plan(tier: str) -> Dict[str, Any]:
